@@ -64,23 +64,28 @@ Pred(ns, w, k, pd) ==
     [] pd.kind = "all" -> TRUE
     [] OTHER -> FALSE
 
-FilterPaths(ns, filter, pd) ==
-  LET w == WalkIx(ns, filter)
-      S == SortedSeq({k \in DOMAIN w : Pred(ns, w, k, pd)})
+FilterWith(ns, w, pd) ==
+  LET S == SortedSeq({k \in DOMAIN w : Pred(ns, w, k, pd)})
   IN [j \in DOMAIN S |-> ns[w[S[j]]].p]
 
-FindPath(ns, filter, pd) ==
-  LET f == FilterPaths(ns, filter, pd) IN IF f = <<>> THEN <<>> ELSE <<f[1]>>
+FindWith(ns, w, pd) ==
+  LET S == {k \in DOMAIN w : Pred(ns, w, k, pd)}
+  IN IF S = {} THEN <<>> ELSE <<ns[w[CHOOSE k \in S : \A x \in S : k <= x]].p>>
+
+FilterPaths(ns, filter, pd) == FilterWith(ns, WalkIx(ns, filter), pd)
+FindPath(ns, filter, pd) == FindWith(ns, WalkIx(ns, filter), pd)
 
 \* C16: inclusive at both ends, on the REPORTED name range
 Contains(r, line, col) ==
   /\ (r[3] < line \/ (r[3] = line /\ r[4] <= col))
   /\ (line < r[5] \/ (line = r[5] /\ col <= r[6]))
 
-LookupPath(ns, filter, line, col) ==
-  LET w == WalkIx(ns, filter)
-      S == {k \in DOMAIN w : Contains(ns[w[k]].sym, line, col)}
+\* w: the visiting order (WalkIx), computed once per query batch
+LookupWith(ns, w, line, col) ==
+  LET S == {k \in DOMAIN w : Contains(ns[w[k]].sym, line, col)}
   IN IF S = {} THEN <<>> ELSE <<ns[w[CHOOSE k \in S : \A x \in S : k <= x]].p>>
+
+LookupPath(ns, filter, line, col) == LookupWith(ns, WalkIx(ns, filter), line, col)
 
 WalkTypesPaths(ns) ==
   LET ms == Members(ns)
